@@ -46,6 +46,7 @@ FUNCTIONS = [
     ('filter_process', 'dataflows.processors.filter_rows', ['process_resource']),
     ('deduper', 'dataflows.processors.deduplicate', ['deduper']),
     ('unpivot_rows', 'dataflows.processors.unpivot', ['unpivot_rows']),
+    ('load_limiter', 'dataflows.processors.load', ['load', 'limiter'], ['self.limit_rows']),
     # the row-phase dispatch loops of the selector-taking processors ('@for:k' = the k-th `for` statement of the body)
     ('loop_filter_rows', 'dataflows.processors.filter_rows', ['filter_rows', 'func', '@for:-1']),
     ('loop_deduplicate', 'dataflows.processors.deduplicate', ['deduplicate', 'func', '@for:-1']),
